@@ -75,9 +75,11 @@ var imports = map[string][]importSpec{
 		{"C07", `^C07\.saturate$`, ``, "a saturation branch that also swallows the neighbouring code moves a value read from the bus by one step when it is written back"},
 		{"C07", `^C07\.f16$`, ``, "the two-octet float encoder must map every decodable value to its own code"},
 		{"C07", `^C07\.scale$`, ``, "encoder and decoder scale by inverse factors"},
+		{"C08", `^C08\.range$`, `success only for a valid value`, "types whose encoder gates on IsValid replace a value that fails it by the invalid marker: a decoder that accepts such a value reads it from the bus and writes something else back"},
 	},
 	"C07": {
 		{"C06", `^C06\.identity$`, ``, "decoding an encoding gives the value back only when encoder and decoder place every field in the same bits: a payload that changes when decoded and written back shows the two disagree"},
+		{"C08", `^C08\.range$`, `accepted interval equals the encoder's clamp`, "inside the documented range - the one the decoder enforces - encoding is accurate to one step and outside it saturates at the nearest bound: an encoder clamp narrower than that range saturates in-range values at the wrong bound"},
 		{"C08", `^C08\.range$`, `IsValid|DPT_10001|DPT_11001`, "encoders gate on IsValid: a validity predicate that rejects an in-range value makes it unencodable, one that accepts an out-of-range value yields an encoding the decoder rejects"},
 	},
 	"C09": {
@@ -92,6 +94,7 @@ var imports = map[string][]importSpec{
 		{"C01", `^C01\.d$`, `serveTCPSocket|serveUDPSocket`, "every goroutine the tunnel started has exited after Close: the socket receiver makes progress on every round and ends on a read error"},
 		{"C09", `^C09\.H[27]\.timeout$`, ``, "Close joins the worker: every wait of the worker ends at the response timeout (a timer that is re-armed inside the wait loop never fires while replies keep arriving)"},
 		{"C03", `^C03\.S6\.timeout$`, ``, "Send returns within the response timeout, so Close is never held up by a sender"},
+		{"C16", `^C16\.T3$`, `TunnelSocket`, "no two goroutines access state without synchronisation: the tunnel's worker (acknowledgements, heartbeats), Close (disconnect) and the application's Sends all transmit through the one socket, whose Send may share nothing but the connection"},
 	},
 	"C11": {
 		{"C02", `^C02\.dispatch$`, `knx/cemi\.|^cemi\.`, "the message code octet: every L_Data type reports the code its frames are dispatched by"},
@@ -117,6 +120,7 @@ var imports = map[string][]importSpec{
 		{"C16", `^C16\.T[12]$`, `serveUDPSocket`, "every routing indication the socket receives reaches the client: buffer large enough, every decoded frame forwarded once"},
 		{"C13", `^C13\.P3$`, `lock on every path|one timer release`, "the send lock taken for a busy period is released exactly once: otherwise no Send ever gets through again (or the process dies unlocking twice)"},
 		{"C01", `^C01\.c$`, kRouterPath, "a delivered indication must not change afterwards"},
+		{"C12", `^C12\.out$`, `buildGroupOutbound|builder`, "the router retains the very message value it transmitted and resends it later: a group telegram must be a fresh value nobody writes to afterwards (no shared template, no recycled storage)"},
 	},
 	"C15": {
 		{"C02", `^C02\.packable$`, ``, "encoding never panics: util.Pack fails at run time on an item that is neither one of its primitive cases nor Packable"},
